@@ -106,6 +106,22 @@ func init() {
 			}
 			return Slice{data: data, off: p.BV(0, 64), ln: n, cp: n}
 		},
+		// vrtBytesL(name, max): like vrtBytes, but the length is concretised at once (forks per length)
+		"vrtBytesL": func(fr *frame, a []Value) Value {
+			e := fr.th.eng
+			p := e.pool
+			name := strArg(a[0])
+			max := e.path.Concretize(a[1].(*Term), "vrtBytesL max")
+			n := e.path.NewVar(name+".len", 64)
+			e.path.Assume(p.Cmp(OpUle, n, p.BV(max, 64)))
+			data := make([]Value, max)
+			for i := range data {
+				data[i] = e.path.NewVar(fmt.Sprintf("%s[%d]", name, i), 8)
+			}
+			k := e.path.Concretize(n, "vrtBytesL len")
+			kk := p.BV(k, 64)
+			return Slice{data: data[:k:k], off: p.BV(0, 64), ln: kk, cp: kk}
+		},
 		// vrtBytesN(name, n): exactly n symbolic bytes (n concrete), cap == len
 		"vrtBytesN": func(fr *frame, a []Value) Value {
 			e := fr.th.eng
